@@ -485,6 +485,27 @@ def rear_stop_spec(rng):
                 {'type': 'standard', 'radius': inf, 'thickness': u(5.0, 30.0), 'material': 'air', 'is_stop': True}]}
 
 
+def wide_hyperboloid_spec(rng):
+    """stop plane close in front of a STRONGLY curved hyperboloid (k < -1, |R| smaller than the beam), wide field: rays
+    far from the axis for which the vertex sheet has no intersection ahead while the quadric's OTHER sheet has one.
+    rng None = the fixed corpus member"""
+    inf = float('inf')
+    if rng is None:
+        R, k, d, fld, epd, mirror = -8.0, -2.5, 1.5, 25.0, 18.0, False
+    else:
+        R = rng.choice([-1, 1]) * rng.uniform(5.0, 30.0)
+        k = -rng.uniform(1.3, 4.0)
+        d = rng.choice([rng.uniform(0.3, 2.0), rng.uniform(20.0, 80.0)])
+        fld, epd, mirror = rng.uniform(10.0, 35.0), rng.uniform(0.6, 2.6) * abs(R), rng.random() < 0.4
+    return {'name': 'wide-hyperboloid', 'aperture': ['EPD', epd], 'field_type': 'angle',
+            'fields': [[0.0, 0.0, 0.0, 0.0], [fld, 0.0, 0.0, 0.0]], 'wavelengths': [[0.55, True]],
+            'telecentric': False, 'object_thickness': inf,
+            'surfaces': [
+                {'type': 'standard', 'radius': inf, 'thickness': d, 'material': 'air', 'is_stop': True},
+                {'type': 'standard', 'radius': R, 'conic': k, 'thickness': (-30.0 if mirror else 30.0),
+                 'material': ('mirror' if mirror else ['ideal', 1.5, 0.0])}]}
+
+
 def corpus():
     inf = float('inf')
     base = {'aperture': ['EPD', 10.0], 'field_type': 'angle', 'fields': [[0.0, 0.0, 0.0, 0.0], [5.0, 0.0, 0.0, 0.0]],
@@ -547,6 +568,8 @@ def corpus():
     # finite object, stop far behind a positive lens (beyond its focus): the entrance pupil is a real image of the stop
     # IN FRONT of the first surface (EPL < 0) - signed pupil position vs distance
     out.append(rear_stop_spec(None))
+    # strongly curved hyperboloid right behind the stop, wide field (the two sheets of the quadric)
+    out.append(wide_hyperboloid_spec(None))
     # one frame component at a time: tilt about y only, tilt about x only, decentre only
     out.append(dict(base, name='single-tilts', surfaces=[
         {'type': 'standard', 'radius': 60.0, 'thickness': 5.0, 'material': ['ideal', 1.6, 0.0], 'is_stop': True, 'ry': 0.06},
